@@ -783,8 +783,10 @@ func checkAndPropagateArgsForUnionWithReturnT(
 			return nil, err
 		}
 
+		// the method types live in the method table: the union of the return types
+		// is accumulated in copies, never in an entry of the table
 		if returnT == nil {
-			returnT = methodTs[idx]
+			returnT = methodTs[idx].DeepCopy()
 
 			continue
 		}
@@ -796,9 +798,10 @@ func checkAndPropagateArgsForUnionWithReturnT(
 		}
 
 		if methodTs[idx].IsUnionType() {
-			methodTs[idx].AppendVariant(*returnT)
+			unionT := methodTs[idx].DeepCopy()
+			unionT.AppendVariant(*returnT)
 
-			returnT = base.MakeUnion(methodTs[idx].GetVariants())
+			returnT = base.MakeUnion(unionT.GetVariants())
 
 			continue
 		}
